@@ -33,6 +33,7 @@ import (
 	"github.com/bronlabs/bron-crypto/pkg/base/serde"
 	"github.com/fxamacker/cbor/v2"
 
+	"verif/harness/internal/drive"
 	"verif/harness/internal/vh"
 )
 
@@ -159,6 +160,9 @@ type tcase struct {
 	// class "elem": one crafted payload against one curve element type (elements.go)
 	et  *elemType
 	pay payload
+	// class "sweep" / "sweep-honest": one message of a protocol run replaced on the wire (sweep.go)
+	sw     *sweepSlot
+	swNote string
 }
 
 func (c *tcase) canon() string {
@@ -174,6 +178,8 @@ func (c *tcase) canon() string {
 		c.caseTxt = fmt.Sprintf("typed|%s|%s|%s|%s|%s|%s", c.sample.Type, vh.Hex(c.sample.Bytes), vh.Hex(c.stream), sm, c.mut.Kind, c.mut.Path)
 	case "elem":
 		c.caseTxt = fmt.Sprintf("elem|%s|%s|%s", c.et.name, c.pay.kind, vh.Hex(c.pay.b))
+	case "sweep", "sweep-honest":
+		c.caseTxt = fmt.Sprintf("sweep|%s|%d|%d|%d|%s|%s|%s", c.sw.proto.Name, c.sw.round, uint64(c.sw.from), uint64(c.sw.to), c.mut.Kind, c.mut.Path, vh.Hex(c.stream))
 	default:
 		c.caseTxt = fmt.Sprintf("any|%s|%s", vh.Hex(c.stream), c.mut.Kind)
 	}
@@ -617,6 +623,7 @@ func genCases(a vh.Args, samples []Sample) []*tcase {
 		cases = append(cases, &tcase{class: "any-mut", mut: m, stream: m.Bytes})
 	}
 	cases = append(cases, elemCases(a)...)
+	cases = append(cases, sweepCases(a)...)
 	return cases
 }
 
@@ -704,6 +711,10 @@ func evaluate(a vh.Args, res *vh.Result, cases []*tcase) {
 			c.lT = add(tLine(len(lines), c.sample.Type, c.sm, c.stream))
 		case "any-enc":
 			c.lE = add(fmt.Sprintf("E %d %s", len(lines), gshow(c.tree)))
+		case "sweep", "sweep-honest":
+			if c.swNote == "" {
+				c.lT = add(tLine(len(lines), c.sw.typ, true, c.stream))
+			}
 		case "any-mut":
 			c.lG = add(fmt.Sprintf("G %d %s", len(lines), vh.Hex(c.stream)))
 		}
@@ -910,7 +921,7 @@ func evaluate(a vh.Args, res *vh.Result, cases []*tcase) {
 						mm("corr", keyBase+"/accepted-"+v2+a2, "the implementation accepted the stream and re-encodes the value as "+vh.Hex(d.Re)+", which the model classifies as "+v2+" "+a2+" ("+ruleTextS(a2)+")", "C12 (ii) typed_decode_valid: an accepted value satisfies the constructor rules", true)
 						continue
 					}
-					if a2 != vh.Hex(d.Re) {
+					if v2 == "valid" && a2 != vh.Hex(d.Re) {
 						mm("corr", keyBase+"/reencoding-not-canonical", "model canonical bytes "+a2+" differ from the library's re-encoding "+vh.Hex(d.Re), "C12 (iv) model bytes = library bytes", false)
 					}
 				}
@@ -956,6 +967,12 @@ func evaluate(a vh.Args, res *vh.Result, cases []*tcase) {
 			}
 		case "elem":
 			evalElem(res, c, mm)
+		case "sweep", "sweep-honest":
+			v, ar := "", ""
+			if c.lT >= 0 {
+				v, ar = field(c.lT, 2), field(c.lT, 3)
+			}
+			evalSweep(a, res, c, v, ar, mm)
 		case "any-mut":
 			verdict := field(c.lG, 2)
 			cls := "any-mut:" + c.mut.Kind + ":" + verdict
@@ -1208,6 +1225,34 @@ func replayCase(path string, samples []Sample) (*tcase, error) {
 			c.tree, _ = gdecode(stream)
 		}
 		return c, nil
+	case len(f) >= 8 && f[0] == "sweep":
+		runs := protoRuns()
+		for i := range runs {
+			if runs[i].Name != f[1] {
+				continue
+			}
+			var tr *drive.Trace
+			if pn := vh.Safely(func() { tr = runs[i].Run(1, nil) }); pn != "" || tr == nil {
+				return nil, fmt.Errorf("honest run of %s fails: %s", f[1], pn)
+			}
+			rd, _ := strconv.Atoi(f[2])
+			from, _ := strconv.ParseUint(f[3], 10, 64)
+			to, _ := strconv.ParseUint(f[4], 10, 64)
+			for _, m := range tr.Messages {
+				if m.Round == rd && uint64(m.From) == from && uint64(m.To) == to {
+					s := &sweepSlot{proto: &runs[i], round: rd, from: m.From, to: m.To, payload: m.Payload}
+					s.typ = fmt.Sprintf("msg-%s-r%d-%s", f[1], rd, s.kind())
+					stream := vh.UnHex(f[len(f)-1])
+					cl := "sweep"
+					if f[5] == "none" {
+						cl = "sweep-honest"
+					}
+					return &tcase{class: cl, sw: s, stream: stream, mut: mutation{Kind: f[5], Path: strings.Join(f[6:len(f)-1], "|"), Bytes: stream}}, nil
+				}
+			}
+			return nil, fmt.Errorf("no message of round %s from %s to %s in the honest run of %s", f[2], f[3], f[4], f[1])
+		}
+		return nil, fmt.Errorf("no protocol %s", f[1])
 	case len(f) == 4 && f[0] == "elem":
 		ets := buildElemTypes(1)
 		for i := range ets {
